@@ -36,8 +36,6 @@ use std::time::Duration;
 enum TsSet {
     /// Every pattern in {t, t+1}^n.
     All,
-    /// All equal, and strictly increasing with the change index.
-    EqualAndIncreasing,
     /// All equal.
     Equal,
 }
@@ -60,14 +58,13 @@ struct Family {
     pres: PresSet,
     /// Payload variants: 0 all valid; 1 the middle change carries a rejected 2nd action;
     /// 2 the last change has a commit signature that does not verify.
-    variants: usize,
+    variants: &'static [usize],
 }
 
 impl Family {
     fn ts_count(&self) -> u64 {
         match self.ts {
             TsSet::All => 1 << self.n,
-            TsSet::EqualAndIncreasing => 2,
             TsSet::Equal => 1,
         }
     }
@@ -79,15 +76,15 @@ impl Family {
         }
     }
     fn size(&self) -> u64 {
-        Shape::count(self.n) * self.ts_count() * self.rank_count() * self.variants as u64
+        Shape::count(self.n) * self.ts_count() * self.rank_count() * self.variants.len() as u64
     }
     fn describe(&self) -> Value {
         json!({"kind": self.kind.name(), "changes": self.n, "shapes": Shape::count(self.n), "timestamps": format!("{:?}", self.ts),
                "rank_orders": self.rank_count(), "presentations": format!("{:?}", self.pres), "variants": self.variants, "items": self.size()})
     }
     fn plan(&self, mut i: u64) -> (Plan, usize) {
-        let variant = (i % self.variants as u64) as usize;
-        i /= self.variants as u64;
+        let variant = self.variants[(i % self.variants.len() as u64) as usize];
+        i /= self.variants.len() as u64;
         let rank_i = i % self.rank_count();
         i /= self.rank_count();
         let ts_i = i % self.ts_count();
@@ -96,7 +93,6 @@ impl Family {
         let n = self.n;
         let ts: Vec<i64> = match self.ts {
             TsSet::All => (0..n).map(|k| ((ts_i >> k) & 1) as i64).collect(),
-            TsSet::EqualAndIncreasing if ts_i == 1 => (0..n).map(|k| k as i64 + 1).collect(),
             _ => vec![0; n],
         };
         let rank = if self.all_ranks { Some(permutations(n)[rank_i as usize].clone()) } else { None };
@@ -112,27 +108,38 @@ impl Family {
 
 fn families(thorough: bool) -> Vec<Family> {
     let mut f = vec![];
-    // Complete product on up to 3 changes for every object type.
+    // Complete product (shape x timestamps x rank orders) on up to 3 changes for every object
+    // type. quick: the full presentation set for issues with valid payloads, the short one for the
+    // other types and for the variants with a pruned change; thorough: full everywhere (variants
+    // with a pruned change for issues only).
     for kind in KINDS {
         for n in 1..=3 {
-            let variants = if kind == Kind::Issue || thorough { 3 } else { 1 };
-            f.push(Family { kind, n, ts: TsSet::All, all_ranks: true, pres: PresSet::Full, variants });
+            if thorough {
+                let variants: &'static [usize] = if kind == Kind::Issue { &[0, 1, 2] } else { &[0] };
+                f.push(Family { kind, n, ts: TsSet::All, all_ranks: true, pres: PresSet::Full, variants });
+            } else if kind == Kind::Issue {
+                f.push(Family { kind, n, ts: TsSet::All, all_ranks: true, pres: PresSet::Full, variants: &[0] });
+                f.push(Family { kind, n, ts: TsSet::All, all_ranks: true, pres: PresSet::Short, variants: &[1, 2] });
+            } else {
+                f.push(Family { kind, n, ts: TsSet::All, all_ranks: true, pres: PresSet::Short, variants: &[0] });
+            }
         }
     }
     if !thorough {
         // 4 changes: every shape, equal timestamps (the id tie-break decides everything),
         // rank as salt 0 gives it, short presentations.
-        f.push(Family { kind: Kind::Issue, n: 4, ts: TsSet::Equal, all_ranks: false, pres: PresSet::Short, variants: 1 });
+        f.push(Family { kind: Kind::Issue, n: 4, ts: TsSet::Equal, all_ranks: false, pres: PresSet::Short, variants: &[0] });
     } else {
-        // 4 changes: every shape x every timestamp pattern x every rank order, short presentations ...
-        f.push(Family { kind: Kind::Issue, n: 4, ts: TsSet::All, all_ranks: true, pres: PresSet::Short, variants: 1 });
-        // ... and the full presentation set for equal / increasing timestamps, every rank order.
-        f.push(Family { kind: Kind::Issue, n: 4, ts: TsSet::EqualAndIncreasing, all_ranks: true, pres: PresSet::Full, variants: 1 });
+        // 4 changes: every shape x every timestamp pattern, salt-0 ranks, short presentations ...
+        f.push(Family { kind: Kind::Issue, n: 4, ts: TsSet::All, all_ranks: false, pres: PresSet::Short, variants: &[0] });
+        // ... and every shape x every rank order with equal timestamps (the id tie-break decides
+        // everything), full presentation set.
+        f.push(Family { kind: Kind::Issue, n: 4, ts: TsSet::Equal, all_ranks: true, pres: PresSet::Full, variants: &[0] });
         for kind in [Kind::Patch, Kind::Thread, Kind::Identity] {
-            f.push(Family { kind, n: 4, ts: TsSet::Equal, all_ranks: false, pres: PresSet::Short, variants: 1 });
+            f.push(Family { kind, n: 4, ts: TsSet::Equal, all_ranks: false, pres: PresSet::Short, variants: &[0] });
         }
         // 5 changes: every shape, equal timestamps, salt-0 ranks, full presentations.
-        f.push(Family { kind: Kind::Issue, n: 5, ts: TsSet::Equal, all_ranks: false, pres: PresSet::Full, variants: 1 });
+        f.push(Family { kind: Kind::Issue, n: 5, ts: TsSet::Equal, all_ranks: false, pres: PresSet::Full, variants: &[0] });
     }
     f
 }
@@ -226,6 +233,15 @@ fn difference(a: &Eval, b: &Eval) -> String {
     }
 }
 
+/// Fingerprint component: which half of the observation differs.
+fn coarse(d: &str) -> &'static str {
+    match (d.contains("object") || d.contains("-vs-") || d.contains("manifest"), d.contains("history")) {
+        (true, true) => "object+history",
+        (true, false) => "object",
+        _ => "history",
+    }
+}
+
 fn eval_plan(seed: u64, plan: &Plan, pres: PresSet, variant: usize) -> ItemOut {
     with_worlds(seed, |ws| {
         let kind = plan.kind;
@@ -251,7 +267,7 @@ fn eval_plan(seed: u64, plan: &Plan, pres: PresSet, variant: usize) -> ItemOut {
                         let d = difference(r, &e);
                         vs.push(
                             Violation::new(
-                                format!("C05/{}/presentation-changes-result/{d}", kind.name()),
+                                format!("C05/{}/presentation-changes-result/{}", kind.name(), coarse(&d)),
                                 format!(
                                     "{}: the same change set evaluates differently when the refs point at nodes {rseq:?} than at nodes {seq:?} (in ref-enumeration order): {d}",
                                     kind.name()
@@ -297,7 +313,7 @@ fn eval_plan(seed: u64, plan: &Plan, pres: PresSet, variant: usize) -> ItemOut {
                 let d = difference(&r, &e);
                 vs.push(
                     Violation::new(
-                        format!("C05/{}/arrival-order-changes-result/{d}", kind.name()),
+                        format!("C05/{}/arrival-order-changes-result/{}", kind.name(), coarse(&d)),
                         format!("{}: the same change set written in another order into a second repository evaluates differently: {d}", kind.name()),
                         json!({"plan": plan_json(plan, Some(&built)), "presentation_a": rseq, "pres_max_len": max_len, "variant": variant,
                                "result_a": describe_eval(&r), "result_b": describe_eval(&e)}),
